@@ -53,6 +53,58 @@ impl VerifFrameReader {
         }
     }
 
+    /// The same over a real TCP socket (the `Regular` read half of a session); the write half is
+    /// handed back so that the caller keeps the socket open.
+    pub fn new_tcp(
+        stream: tokio::net::TcpStream,
+        max: u64,
+    ) -> (Self, tokio::net::tcp::OwnedWriteHalf) {
+        let (read, write) = stream.into_split();
+        (
+            Self {
+                half: ActorReadHalf::Regular(read),
+                max,
+            },
+            write,
+        )
+    }
+
+    /// The same over the accepting end of a TLS session (the `ServerTls` read half).
+    pub fn new_tls_server(
+        stream: tokio_rustls::server::TlsStream<tokio::net::TcpStream>,
+        max: u64,
+    ) -> (
+        Self,
+        tokio::io::WriteHalf<tokio_rustls::server::TlsStream<tokio::net::TcpStream>>,
+    ) {
+        let (read, write) = tokio::io::split(stream);
+        (
+            Self {
+                half: ActorReadHalf::ServerTls(read),
+                max,
+            },
+            write,
+        )
+    }
+
+    /// The same over the dialling end of a TLS session (the `ClientTls` read half).
+    pub fn new_tls_client(
+        stream: tokio_rustls::client::TlsStream<tokio::net::TcpStream>,
+        max: u64,
+    ) -> (
+        Self,
+        tokio::io::WriteHalf<tokio_rustls::client::TlsStream<tokio::net::TcpStream>>,
+    ) {
+        let (read, write) = tokio::io::split(stream);
+        (
+            Self {
+                half: ActorReadHalf::ClientTls(read),
+                max,
+            },
+            write,
+        )
+    }
+
     /// One call of the real `read_network_message`: the message re-encoded, or `(kind, text)`.
     pub async fn read_one(&mut self) -> Result<Vec<u8>, (ErrorKind, String)> {
         match read_network_message(&mut self.half, self.max).await {
